@@ -10,7 +10,7 @@ Local Open Scope nat_scope.
 (** * isEqual *)
 
 Lemma diag_eqb_refl d : diag_eqb d d = true.
-Proof. unfold diag_eqb. now rewrite !Z.eqb_refl, String.eqb_refl. Qed.
+Proof. unfold diag_eqb. now rewrite !Z.eqb_refl, String.eqb_refl, N.eqb_refl. Qed.
 
 Lemma is_same_diags_perm sa sb : Permutation sa sb -> is_same_diags sa sb = true.
 Proof.
@@ -40,14 +40,14 @@ Proof.
   transitivity (isort diag_lt (r_diags b)); [symmetry; apply isort_perm|rewrite <- E9; apply isort_perm].
 Qed.
 
-(** isSameDiagnostics is symmetric on lists without repeated (columns, message) triples *)
-Definition triple (d : diag) := (dg_first d, dg_last d, dg_msg d).
+(** isSameDiagnostics is symmetric on lists without repeated (columns, message, position) tuples *)
+Definition triple (d : diag) := (dg_first d, dg_last d, dg_msg d, dg_extra d).
 
 Lemma diag_eqb_triple a b : diag_eqb a b = true <-> triple a = triple b.
 Proof.
-  unfold diag_eqb, triple. rewrite !andb_true_iff, !Z.eqb_eq, String.eqb_eq. split.
-  - intros [[-> ->] ->]. reflexivity.
-  - intros E. injection E as -> -> ->. auto.
+  unfold diag_eqb, triple. rewrite !andb_true_iff, !Z.eqb_eq, String.eqb_eq, N.eqb_eq. split.
+  - intros [[[-> ->] ->] ->]. reflexivity.
+  - intros E. injection E as -> -> -> ->. auto.
 Qed.
 
 Lemma is_same_diags_incl sa sb :
